@@ -183,19 +183,143 @@ Proof.
 Qed.
 
 Lemma Ztrunc_bounds : forall x : R, (Rabs (IZR (Ztrunc x)) <= Rabs x)%R /\ (Rabs (x - IZR (Ztrunc x)) < 1)%R
-   /\ (0 <= x -> 0 <= x - IZR (Ztrunc x))%R /\ (x <= 0 -> x - IZR (Ztrunc x) <= 0)%R.
+   /\ (0 <= x -> 0 <= x - IZR (Ztrunc x))%R /\ (x <= 0 -> x - IZR (Ztrunc x) <= 0)%R
+   /\ (Rabs (x - IZR (Ztrunc x)) <= Rabs x)%R.
 Proof.
   intros x. destruct (Rle_dec 0 x) as [H|H].
   - rewrite Ztrunc_floor by exact H.
-    pose proof (Zfloor_lb x). pose proof (Zfloor_ub x).
-    assert (0 <= IZR (Zfloor x))%R by (apply IZR_le, Zfloor_lub; simpl; exact H).
-    repeat split; intros; try (rewrite !Rabs_pos_eq by lra); try lra.
-    rewrite Rabs_pos_eq by lra. lra.
-    assert (x = 0)%R by lra. subst x. rewrite Zfloor_IZR. simpl. lra.
+    pose proof (Zfloor_lb x) as L. pose proof (Zfloor_ub x) as U.
+    assert (P : (0 <= IZR (Zfloor x))%R) by (apply IZR_le, Zfloor_lub; simpl; exact H).
+    split; [|split; [|split; [|split]]].
+    + rewrite !Rabs_pos_eq by lra. lra.
+    + rewrite Rabs_pos_eq by lra. lra.
+    + intros _. lra.
+    + intros Hx. lra.
+    + rewrite !Rabs_pos_eq by lra. lra.
   - rewrite Ztrunc_ceil by lra.
-    pose proof (Zceil_lb x). pose proof (Zceil_ub x).
-    assert (IZR (Zceil x) <= 0)%R by (apply IZR_le, Zceil_glb; simpl; lra).
-    repeat split; intros; try lra.
+    pose proof (Zceil_lb x) as L. pose proof (Zceil_ub x) as U.
+    assert (P : (IZR (Zceil x) <= 0)%R) by (apply IZR_le, Zceil_glb; simpl; lra).
+    split; [|split; [|split; [|split]]].
     + rewrite !Rabs_left1 by lra. lra.
     + rewrite Rabs_left1 by lra. lra.
+    + intros Hx. lra.
+    + intros _. lra.
+    + rewrite !Rabs_left1 by lra. lra.
+Qed.
+
+(* the fractional part of a representable number is representable: modf is exact *)
+Lemma fmt_sub_trunc : forall x : R, fmt x -> fmt (x - IZR (Ztrunc x)).
+Proof.
+  intros x Hx. destruct (FLT_fmt x Hx) as [[M E] Ex HM HE]. simpl in HM, HE.
+  destruct (Z_le_gt_dec 0 E) as [He|He].
+  - assert (I : x = IZR (M * 2 ^ E)).
+    { rewrite Ex. unfold F2R. simpl Fnum. simpl Fexp. rewrite mult_IZR.
+      change (2 ^ E) with (Zpower radix2 E). now rewrite IZR_Zpower by lia. }
+    rewrite I, Ztrunc_IZR, Rminus_diag_eq by reflexivity. apply generic_format_0.
+  - set (k := Ztrunc x).
+    assert (P : (bpow radix2 (- E) * bpow radix2 E = 1)%R).
+    { rewrite <- bpow_plus. replace (- E + E) with 0 by lia. reflexivity. }
+    assert (D : (x - IZR k)%R = F2R (Float radix2 (M - k * 2 ^ (- E)) E)).
+    { unfold F2R. simpl Fnum. simpl Fexp. rewrite minus_IZR, mult_IZR.
+      change (2 ^ (- E)) with (Zpower radix2 (- E)). rewrite IZR_Zpower by lia.
+      rewrite Ex. unfold F2R. simpl Fnum. simpl Fexp.
+      rewrite Rmult_minus_distr_r, Rmult_assoc, P. ring. }
+    apply fmt_FLT. apply (FLT_spec _ _ _ _ _ D); simpl; [|lia].
+    apply lt_IZR. rewrite abs_IZR.
+    eapply Rle_lt_trans; [|apply IZR_lt; exact HM]. rewrite abs_IZR.
+    apply Rmult_le_reg_r with (bpow radix2 E); [apply bpow_gt_0|].
+    rewrite <- (Rabs_pos_eq (bpow radix2 E)) by apply bpow_ge_0.
+    rewrite <- !Rabs_mult.
+    change (IZR (M - k * 2 ^ (- E)) * bpow radix2 E)%R with (F2R (Float radix2 (M - k * 2 ^ (- E)) E)).
+    rewrite <- D.
+    change (IZR M * bpow radix2 E)%R with (F2R (Float radix2 M E)). rewrite <- Ex.
+    apply (Ztrunc_bounds x).
+Qed.
+
+(* modf on a finite value of magnitude below 2^53 *)
+Lemma modf_spec : forall f, fin f -> (Rabs (FR f) < IZR (2 ^ 53))%R ->
+  exists fp, modf f = Ok (Ztrunc (FR f), fp) /\ fin fp /\ FR fp = (FR f - IZR (Ztrunc (FR f)))%R.
+Proof.
+  intros f Ff B. unfold modf. rewrite (int_of_float_spec f Ff). cbn [bind].
+  set (ip := Ztrunc (FR f)).
+  assert (Hip : Z.abs ip < 2 ^ 53).
+  { apply lt_IZR. rewrite abs_IZR. eapply Rle_lt_trans; [apply (Ztrunc_bounds (FR f))|exact B]. }
+  assert (T : (Z.abs ip <? two53) = true) by (apply Z.ltb_lt; exact Hip).
+  rewrite T. eexists. split; [reflexivity|].
+  destruct (of_Z_spec ip Hip) as [Fi Vi].
+  assert (G : RN (FR f - FR (of_Z ip)) = (FR f - IZR ip)%R).
+  { rewrite Vi. apply round_generic; [apply valid_rnd_N|]. apply fmt_sub_trunc, fmt_FR. }
+  destruct (fsub_spec f (of_Z ip) Ff Fi) as [F1 V1].
+  - rewrite G. eapply Rlt_trans; [apply (Ztrunc_bounds (FR f))|].
+    apply (bpow_lt radix2 0 64). lia.
+  - split; [exact F1|]. now rewrite V1, G.
+Qed.
+
+(* ------------------------------------------------------------------------- *)
+(* rounding to the nearest integer when the value is not near a tie *)
+
+Lemma near_int_cases : forall (t : R) (k : Z), (Rabs t < 1)%R -> (Rabs (t - IZR k) <= 63 / 128)%R ->
+  ((/ 2 <= t)%R -> k = 1) /\ ((t <= - / 2)%R -> k = -1) /\ ((- / 2 < t < / 2)%R -> k = 0).
+Proof.
+  intros t k Ht Hk. apply Rabs_lt_inv in Ht. apply Rabs_le_inv in Hk.
+  split; [|split]; intros H.
+  - assert (0 < k < 2) by (split; apply lt_IZR; simpl; lra). lia.
+  - assert (-2 < k < 0) by (split; apply lt_IZR; simpl; lra). lia.
+  - assert (-1 < k < 1) by (split; apply lt_IZR; simpl; lra). lia.
+Qed.
+
+Lemma c_round_near : forall x j, fin x -> Z.abs j < 2 ^ 52 ->
+  (Rabs (FR x - IZR j) <= 63 / 128)%R -> c_round x = of_Z j.
+Proof.
+  intros x j Fx Hj Hn. unfold c_round. rewrite (int_of_float_spec x Fx).
+  set (X := FR x) in *. set (ip := Ztrunc X).
+  destruct (Ztrunc_bounds X) as (B1 & B2 & _ & _ & _). fold ip in B1, B2.
+  assert (Hip : Z.abs ip <= Z.abs j).
+  { assert (Z.abs ip < Z.abs j + 1); [|lia]. apply lt_IZR. rewrite plus_IZR, !abs_IZR.
+    apply Rabs_le_inv in Hn. simpl.
+    assert (Rabs X <= Rabs (IZR j) + 63 / 128)%R.
+    { replace X with ((X - IZR j) + IZR j)%R by ring. eapply Rle_trans; [apply Rabs_triang|].
+      assert (Rabs (X - IZR j) <= 63 / 128)%R by (apply Rabs_le; lra). lra. }
+    lra. }
+  assert (T : (two52 <=? Z.abs ip) = false) by (apply Z.leb_gt; unfold two52; lia).
+  rewrite T.
+  assert (Hip53 : Z.abs ip < 2 ^ 53) by lia.
+  destruct (of_Z_spec ip Hip53) as [Fi Vi].
+  assert (G : RN (X - FR (of_Z ip)) = (X - IZR ip)%R).
+  { rewrite Vi. apply round_generic; [apply valid_rnd_N|]. apply fmt_sub_trunc, fmt_FR. }
+  destruct (fsub_spec x (of_Z ip) Fx Fi) as [Fd Vd].
+  { fold X. rewrite G. eapply Rlt_trans; [exact B2|]. apply (bpow_lt radix2 0 64). lia. }
+  fold X in Vd. rewrite G in Vd.
+  assert (Hk : (Rabs ((X - IZR ip) - IZR (j - ip)) <= 63 / 128)%R).
+  { rewrite minus_IZR. replace (X - IZR ip - (IZR j - IZR ip))%R with (X - IZR j)%R by ring. exact Hn. }
+  destruct (near_int_cases _ _ B2 Hk) as (C1 & C2 & C3).
+  rewrite (fleb_spec _ _ fhalf_fin Fd), fhalf_val, Vd.
+  destruct (Rle_bool_spec (/ 2) (X - IZR ip)) as [H|H].
+  - f_equal. specialize (C1 H). lia.
+  - destruct (fopp_spec fhalf fhalf_fin) as [Fo Vo]. rewrite fhalf_val in Vo.
+    rewrite (fleb_spec _ _ Fd Fo), Vo, Vd.
+    destruct (Rle_bool_spec (X - IZR ip) (- / 2)) as [H'|H'].
+    + f_equal. specialize (C2 H'). lia.
+    + f_equal. assert (j - ip = 0) by (apply C3; lra). lia.
+Qed.
+
+(* 63/128 is representable, so a difference bounded by it stays bounded after rounding *)
+Lemma fmt_63_128 : fmt (63 / 128)%R.
+Proof.
+  apply fmt_FLT. apply (FLT_spec _ _ _ _ (Float radix2 63 (-7))); simpl; try lia.
+  unfold F2R. simpl. lra.
+Qed.
+
+Lemma round_half_even_near : forall x j, fin x -> Z.abs j < 2 ^ 52 ->
+  (Rabs (FR x - IZR j) <= 63 / 128)%R -> round_half_even x = of_Z j.
+Proof.
+  intros x j Fx Hj Hn. unfold round_half_even. rewrite (c_round_near x j Fx Hj Hn).
+  destruct (of_Z_spec j ltac:(lia)) as [Fj Vj].
+  assert (B : (Rabs (RN (FR x - FR (of_Z j))) <= 63 / 128)%R).
+  { rewrite Vj. apply abs_round_le_generic; [apply FLT_exp_valid; reflexivity | apply valid_rnd_N | apply fmt_63_128 | exact Hn]. }
+  destruct (fsub_spec x (of_Z j) Fx Fj) as [Fd Vd].
+  { eapply Rle_lt_trans; [exact B|]. eapply Rlt_trans; [|apply (bpow_lt radix2 0 64); lia]. simpl. lra. }
+  destruct (fabs_spec _ Fd) as [Fa Va].
+  rewrite (feqb_spec _ _ Fa fhalf_fin), Va, Vd, fhalf_val.
+  rewrite Req_bool_false; [reflexivity|]. lra.
 Qed.
